@@ -203,6 +203,17 @@ CHECKS = {
             "and the rewriter.",
             "TLA+ non-interference monitor checked by TLC over branch/index signatures from an AST-instrumented observation build",
             "5/C08 and 9"),
+    "C14": ("model_checking",
+            "H2C.tla holds RFC 9380 expand_message_xmd/xof with their loop structure, oversize-DST path and abort conditions; Elligator.tla "
+            "the straight-line Elligator 2 definition plus the rational map with its exceptional cases. TLC checks on toy fields that the "
+            "map is well defined for EVERY field element (on both curves, prime-order after x8) and the expansion's length/abort logic. At "
+            "real scale TLC recomputes recorded expansions (DST length classes incl. 255/256/oversize x output length classes incl. 255b, "
+            "255b+1, 65535, 65536 x SHA-224/256/384/512, SHAKE128/256), the six suites on random inputs, and internal/elligator on "
+            "exceptional field inputs, with the hash functions as tables from the trace.",
+            "Trusts TLC/SANY, BigNat/F25519, SHA-2/SHAKE implementations (tables; the spec rebuilds every input). Suite outputs are sampled "
+            "(12 per configuration quick, 240 thorough).",
+            "TLA+ transcription of RFC 9380: TLC on toy fields + real-scale TLC trace validation with hash-table oracles",
+            "5/C14"),
 }
 
 NOT_YET = "check not built yet in this round (planned, see DESIGN.md section 11); not claimed until its machinery exists"
